@@ -256,6 +256,9 @@ func bytes_(thread *Thread, _ *Builtin, args Tuple, kwargs []Tuple) (Value, erro
 		var buf strings.Builder
 		if n := Len(x); n >= 0 {
 			// common case: known length
+			if err := checkResultLen("bytes", n); err != nil {
+				return nil, err
+			}
 			buf.Grow(n)
 		}
 		iter := x.Iterate()
@@ -346,6 +349,9 @@ func enumerate(thread *Thread, _ *Builtin, args Tuple, kwargs []Tuple) (Value, e
 
 	if n := Len(iterable); n >= 0 {
 		// common case: known length
+		if err := checkResultLen("enumerate", n); err != nil {
+			return nil, err
+		}
 		pairs = make([]Value, 0, n)
 		array := make(Tuple, 2*n) // allocate a single backing array
 		for i := 0; iter.Next(&x); i++ {
@@ -686,6 +692,9 @@ func list(thread *Thread, _ *Builtin, args Tuple, kwargs []Tuple) (Value, error)
 		iter := iterable.Iterate()
 		defer iter.Done()
 		if n := Len(iterable); n > 0 {
+			if err := checkResultLen("list", n); err != nil {
+				return nil, err
+			}
 			elems = make([]Value, 0, n) // preallocate if length known
 		}
 		var x Value
@@ -1017,6 +1026,9 @@ func reversed(thread *Thread, _ *Builtin, args Tuple, kwargs []Tuple) (Value, er
 	defer iter.Done()
 	var elems []Value
 	if n := Len(args[0]); n >= 0 {
+		if err := checkResultLen("reversed", n); err != nil {
+			return nil, err
+		}
 		elems = make([]Value, 0, n) // preallocate if length known
 	}
 	var x Value
@@ -1068,6 +1080,9 @@ func sorted(thread *Thread, _ *Builtin, args Tuple, kwargs []Tuple) (Value, erro
 	defer iter.Done()
 	var values []Value
 	if n := Len(iterable); n > 0 {
+		if err := checkResultLen("sorted", n); err != nil {
+			return nil, err
+		}
 		values = make(Tuple, 0, n) // preallocate if length is known
 	}
 	var x Value
@@ -1168,6 +1183,9 @@ func tuple(thread *Thread, _ *Builtin, args Tuple, kwargs []Tuple) (Value, error
 	defer iter.Done()
 	var elems Tuple
 	if n := Len(iterable); n > 0 {
+		if err := checkResultLen("tuple", n); err != nil {
+			return nil, err
+		}
 		elems = make(Tuple, 0, n) // preallocate if length is known
 	}
 	var x Value
@@ -1216,6 +1234,9 @@ func zip(thread *Thread, _ *Builtin, args Tuple, kwargs []Tuple) (Value, error) 
 	var result []Value
 	if rows >= 0 {
 		// length known
+		if err := checkResultLen("zip", rows); err != nil {
+			return nil, err
+		}
 		result = make([]Value, rows)
 		array := make(Tuple, cols*rows) // allocate a single backing array
 		for i := 0; i < rows; i++ {
@@ -2546,6 +2567,16 @@ func setUpdate(s *Set, args Tuple, kwargs []Tuple) error {
 
 // nameErr returns an error message of the form "name: msg"
 // where name is b.Name() and msg is a string or error.
+// checkResultLen reports an error if a built-in would have to materialize
+// a sequence of n elements that cannot possibly be allocated (for example
+// list(range(1<<62))); it guards the preallocation of the result.
+func checkResultLen(fname string, n int) error {
+	if n >= maxAlloc {
+		return fmt.Errorf("%s: result too large (%d elements)", fname, n)
+	}
+	return nil
+}
+
 func nameErr(b *Builtin, msg any) error {
 	return fmt.Errorf("%s: %v", b.Name(), msg)
 }
